@@ -17,7 +17,9 @@ EXHAUSTIVE = True
 RULE = ("case = payload length x block-size plan (all sequences over the block-size alphabet as long as the transfer "
         "needs for short payloads, constant/alternating plans above) x CRC negotiation {granted, refused, not requested} x "
         "server behaviour on a stalled sub-block {silent, acknowledges what it got}; + an undisturbed earlier download on the "
-        "same / another client object; + payload written in pieces through buffered writers of size 8..1024; within a case every set of <= D "
+        "same / another client object; + payload written in pieces through buffered writers of size 8..1024; + undisturbed "
+        "sweep of every length 65..1800 (3600) with plan / CRC / payload family rotating and 7100..20000 (70000) bytes in "
+        "one write with small blocks; within a case every set of <= D "
         "dropped segments (incl. retransmitted ones); non-trivial = executions with >= 1 drop or >= 2 sub-blocks")
 ASSUMPTIONS = [
     "the CRC field of the end frame is compared only when both sides negotiated CRC",
